@@ -626,3 +626,65 @@ func VfH_C06_line() {
 	vfCover("inner-break", n >= 2 && want[1])
 	vfReach("end")
 }
+
+// H-C06-line-numeric: the numeric context rules (LB13, LB25 tailoring: prefix / opening / digits with
+// separators / closing / postfix) need 4..5 characters; this harness walks longer sequences over the
+// representatives of the classes those rules mention (PR PO OP HY NU SY IS CL CP) plus CM, ZWJ, SP and AL.
+func vfNumericReps() []rune {
+	want := []*ucdTable{ucd.BreakPR, ucd.BreakPO, ucd.BreakOP, ucd.BreakHY, ucd.BreakNU, ucd.BreakSY, ucd.BreakIS,
+		ucd.BreakCL, ucd.BreakCP, ucd.BreakCM, ucd.BreakZWJ, ucd.BreakSP, ucd.BreakAL}
+	seen := map[*ucdTable]bool{}
+	var out []rune
+	for _, r := range vfReps {
+		c := ucd.LookupLineBreakClass(r)
+		for _, w := range want {
+			if c == w && !seen[c] && !unicode.Is(ucd.LargeEastAsian, r) {
+				seen[c] = true
+				out = append(out, r)
+			}
+		}
+	}
+	return out
+}
+
+func VfH_C06_line_numeric() {
+	reps := vfNumericReps()
+	n := 4
+	if vfThorough() {
+		n = 4 + vfChoice("extra", 2)
+	}
+	text := make([]rune, n)
+	for i := range text {
+		text[i] = reps[vfInt("numRep", 0, len(reps)-1)]
+	}
+	var seg Segmenter
+	seg.Init(text)
+	want := vfLineRef(text)
+	lineClass := make([]*ucdTable, n)
+	for j := range text {
+		lineClass[j] = ucd.LookupLineBreakClass(text[j])
+	}
+	is := func(j int, cs ...*ucdTable) bool {
+		r := false
+		for _, c := range cs {
+			r = vfOr(r, lineClass[j] == c)
+		}
+		return r
+	}
+	// known finding: the one-rune lookahead of "(PR | PO) x (OP | HY) NU" does not skip combining marks (LB9).
+	// The class is exactly: boundary between PR|PO and OP|HY, followed by CM or ZWJ.
+	inClass := make([]bool, n)
+	agree := make([]bool, n)
+	for i := 1; i < n; i++ {
+		agree[i] = (seg.attributes[i]&lineBoundary != 0) == want[i]
+		if i+1 < n {
+			inClass[i] = vfAnd(vfAnd(is(i-1, ucd.BreakPR, ucd.BreakPO), is(i, ucd.BreakOP, ucd.BreakHY)), is(i+1, ucd.BreakCM, ucd.BreakZWJ))
+		}
+		vfAssert(vfOr(inClass[i], agree[i]), "line break opportunity differs from UAX #14 (LB rules)")
+	}
+	for i := 1; i+1 < n; i++ {
+		vfKnown("C06-lb25-lookahead-across-combining-mark", vfAnd(inClass[i], !agree[i]))
+		vfAssert(vfImplies(inClass[i], agree[i]), "line break opportunity differs from UAX #14 (LB rules)")
+	}
+	vfReach("end")
+}
